@@ -13,7 +13,8 @@ CFG = {
             "i in -1..cap+3, ContainsKey, ContainsValue) and a drain by Delete. random: capacities 1..10 (and 13..40), sparse "
             "index pools, 1/14 invalid indices, duplicate-heavy and wide key ranges, mixed / fill-then-churn / delete-heavy "
             "phases up to 200 steps. cascade: fill, one Delete, then key decreases below the minimum / DeleteIndex of deep nodes "
-            "(marks, cascading cuts, promote/demote chains). maxdeg: indexedFibonacci.maxDegree (float) against the model's exact value for "
+            "(marks, cascading cuts, promote/demote chains); thinning: one big tree (2^k+1 inserts + Delete, k=3..6), then DeleteIndex / decrease of "
+            "the deepest nodes at depth >= 2 read from the hook layout of a scratch Fibonacci heap, Deletes interleaved (degree bound). maxdeg: indexedFibonacci.maxDegree (float) against the model's exact value for "
             "n <= 30000, around every Fibonacci/Lucas number and random n <= 10^6 (all n <= 10^6 in the thorough tier). Every result is refereed by the extracted specification "
             "(api) and compared exactly with the extracted model incl. the hook layout (fidelity). A case is non-trivial when "
             "at least two successful ChangeKey/DeleteIndex happened on a heap holding >= 3 entries; distinct = distinct case lines.",
